@@ -101,7 +101,7 @@ def _f08a_trigger(src):
         return False
     mism, gaps = [], []
     v = tokcheck.tiling_violations(src, out.value, mismatched_out=mism, gaps_out=gaps)
-    return bool(v) and tokcheck.pending_string_symptom(out.value, mism, gaps)
+    return bool(v) and tokcheck.pending_string_symptom(src, out.value, mism, gaps)
 
 
 def join_tokens(seq):
